@@ -29,7 +29,8 @@ def common(tier):
         J('fig8-3-b8:H1R1E1', 'fig8', dict(n=3, batch_bytes=8), dict(H=1, R=1, E=1)),
         J('fig8-3:H1R1E1', 'fig8', dict(n=3), dict(H=1, R=1, E=1)),
         J('ahead3:H4K1', 'ahead', dict(n=3), dict(H=4, K=1), dict(unrep=4)),
-        J('fresh4:E2', 'fresh', dict(n=4), dict(E=2)),
+        J('candidates4', 'candidates', dict(n=4, fuse=True), dict()),
+        J('candidates5x2', 'candidates', dict(n=5, fuse=True), dict()),
         J('pipeline3:H2R1K1', 'reconnect_pipeline', dict(n=3), dict(H=2, R=1, K=1), dict(unrep=4)),
         J('steady3-k3:H1S1K1X1', 'steady', dict(n=3), dict(H=1, S=1, K=1, X=1), dict(k=3)),
     ]
@@ -38,6 +39,7 @@ def common(tier):
             J('fig8-3-b8:H2R1E2', 'fig8', dict(n=3, batch_bytes=8), dict(H=2, R=1, E=2)),
             J('fig8-3:H2R1E2', 'fig8', dict(n=3), dict(H=2, R=1, E=2)),
             J('fresh3:E2H1S1', 'fresh', dict(n=3), dict(E=2, H=1, S=1)),
+            J('fresh4:E2', 'fresh', dict(n=4), dict(E=2)),
             J('fresh4:E2H1', 'fresh', dict(n=4), dict(E=2, H=1)),
             J('fresh5:E2', 'fresh', dict(n=5), dict(E=2)),
             J('steady3:E1H2S1X1R1', 'steady', dict(n=3), dict(E=1, H=2, S=1, X=1, R=1)),
